@@ -22,11 +22,15 @@ for d in sorted(glob.glob('seeded/*/meta.json')):
 doc=between(doc,"<!-- SEEDS-BEGIN -->\n","<!-- SEEDS-END -->","| Seed | Change | Detected by |\n|---|---|---|\n"+"\n".join(rows)+"\n")
 doc=re.sub(r'Result: \*\*\d+ of \d+ detected\*\*','Result: **%d of %d detected**'%(nd,tot),doc)
 k=json.load(open('known_findings.json'))
-drows=[]
+drows=[]; krows=[]
 for e in k['findings']:
+    if e['status']=='known':
+        krows.append("| %s | %s | `%s` | %s | %s |"%(e['defect'],', '.join(e['properties']),e['key'].replace('|','/'),e['what'].replace('|','/'),e.get('failing_input','').replace('|','/')))
+        continue
     w=e['what'].split(' ',3)[3]
     drows.append("| %s | %s | %s | `%s` |"%(e['defect'],', '.join(e['properties']),w.replace('|','/'),e['commit']))
 doc=between(doc,"<!-- DEFECTS-BEGIN -->\n","<!-- DEFECTS-END -->","| Id | Properties | What failed (rule) | Fix commit |\n|---|---|---|---|\n"+"\n".join(drows)+"\n")
+doc=between(doc,"<!-- KNOWN-BEGIN -->\n","<!-- KNOWN-END -->","| Id | Properties | Obligation (key in known_findings.json) | What fails | Failing input |\n|---|---|---|---|---|\n"+"\n".join(krows)+"\n")
 # per-property rule lists in section 4 headings
 pr={}
 for l in rules:
